@@ -150,6 +150,9 @@ func i3Build(r *rng, names []string, line func(*rng, []string) string) *i1Scenar
 	if r.chance(1, 6) {
 		nLines = 1 + r.n(30)
 	}
+	if r.chance(1, 30) {
+		nLines = nLog(r, 31, 130) // MANY lines (the driver parses every line of every op: kept rare)
+	}
 	ids := append([]int{}, i1ListIDs...)
 	shuffle(r, ids)
 	bodies := make([][]string, nLists)
@@ -334,7 +337,7 @@ func i3GenWeb(r *rng, n int, w *bufio.Writer) {
 		sc := i3Build(r, names, i3WebLine)
 		engine := urlfilter.NewEngine(sc.storage)
 		ls := sc.wlists()
-		for j := 0; j < 6 && i < n; j, i = j+1, i+1 {
+		for j := 0; j < nOpsFor(sc, 6) && i < n; j, i = j+1, i+1 {
 			u, src, typ := i3URL(r, names, sc), i3Source(r, names), pick(r, poolReqTypes)
 			if r.chance(1, 2) {
 				typ = rules.TypeDocument
@@ -385,7 +388,7 @@ func i3GenDNS(r *rng, n int, w *bufio.Writer) {
 		sc := i3Build(r, names, i3DNSLine)
 		engine := urlfilter.NewDNSEngine(sc.storage)
 		ls := sc.wlists()
-		for j := 0; j < 6 && i < n; j, i = j+1, i+1 {
+		for j := 0; j < nOpsFor(sc, 6) && i < n; j, i = j+1, i+1 {
 			d := genDNSRequest(r, sc.all)
 			switch r.n(8) {
 			case 0, 1, 2, 3, 4:
